@@ -3,6 +3,9 @@
 seed=$1; budget=$2; shift 2
 props="${*:-C01 C03 C04 C05 C09 C10 C12 C13 C14 C16 C17 C19 C20}"
 out=/tmp/thor-$seed; mkdir -p $out
+# run from a snapshot of /verif so that edits made meanwhile do not change the build between checks
+# (replay files only reproduce with the harness that produced them: the snapshot stays at $out/verif)
+snap=$out/verif; rm -rf $snap; mkdir -p $snap; rsync -a --exclude .git --exclude evidence --exclude replays --exclude seeded --exclude findings /verif/ $snap/
 for p in $props; do
-  VERIF_OUT=$out VERIF_REPO=${VERIF_REPO:-/tmp/wt/clean} VERIF_SEED=$seed VERIF_BUDGET=$budget VERIF_WORKERS=${VERIF_WORKERS:-8} timeout 3000 /verif/check $p thorough 2>&1 | grep "^check\|^VIOL\|^  class\|CHECK-ERR\|NONDET\|HARNESS\|WORKER\|KNOWN" | cut -c1-220
+  VERIF_OUT=$out VERIF_REPO=${VERIF_REPO:-/tmp/wt/clean} VERIF_SEED=$seed VERIF_BUDGET=$budget VERIF_WORKERS=${VERIF_WORKERS:-8} timeout 3000 $snap/check $p thorough 2>&1 | grep "^check\|^VIOL\|^  class\|CHECK-ERR\|NONDET\|HARNESS\|WORKER\|KNOWN" | cut -c1-220
 done
